@@ -91,7 +91,7 @@ def intersect_methods(prog: Program) -> list[FunctionInfo]:
     for c in prog.subclasses(poly):
         f = c.methods.get("intersect")
         if f is not None:
-            out.append(f)
+            out.append(prog.body_of(f))
     return out
 
 
